@@ -92,7 +92,12 @@ func refStreams() [][]byte {
 // ioVariants are the entry points of the io domain: per mode three stages, the reader-fed decoder first (see
 // spin detection below), then the in-memory decoder, then the Formatter wrapper of that mode (Marshal's
 // default formatter in simple mode, the pooled decoder of Formatter{Simple:false} in reference mode).
-var ioVariants = []string{"reader/simple", "coder/simple", "marshal/simple", "reader/ref", "coder/ref", "formatter/ref"}
+// The third group runs with the non-default decoder settings (big-number long and real types, interface-keyed
+// maps, struct values instead of pointers, typed slices): the conversions behind them see wire data too.
+var ioVariants = []string{"reader/simple", "coder/simple", "marshal/simple", "reader/ref", "coder/ref", "formatter/ref",
+	"reader/ref+settings", "coder/ref+settings", "coder/simple+settings"}
+
+var altSettings = iocase.Cfg{Entry: "coder", Long: hio.LongTypeBigInt, Real: hio.RealTypeBigFloat, Map: hio.MapTypeIIMap, Struct: hio.StructTypeValue, List: hio.ListTypeSlice}
 
 func stageOf(domain string, cell int) int {
 	if domain != "io" {
@@ -226,11 +231,21 @@ func runCell(domain string, cell int, input []byte) outcome {
 		ar = arenaFor(cell / len(ioVariants))
 		p := ar.ptr
 		switch v {
-		case 0, 3:
+		case 0, 3, 6:
 			f = func() {
 				dec := hio.NewDecoderFromReader(&capReader{data: input, cap: spinCap(len(input))}).Simple(v == 0)
+				if v == 6 {
+					c := altSettings
+					dec.LongType, dec.RealType, dec.MapType, dec.StructType, dec.ListType = c.Long, c.Real, c.Map, c.Struct, c.List
+				}
 				dec.Decode(p)
 				err = dec.Error
+			}
+		case 7, 8:
+			f = func() {
+				c := altSettings
+				c.Simple = v == 8
+				err = iocase.Decode(c, input, p)
 			}
 		case 1, 4:
 			f = func() { err = iocase.Decode(iocase.Cfg{Entry: "coder", Simple: v == 1}, input, p) }
